@@ -96,6 +96,25 @@ Proof.
   - apply Nat.eqb_neq in E. repeat split; auto. apply Hi. lia.
 Qed.
 
+(* the same for the separator the (fixed) descent leaves: the first separator is only ever lowered to the key *)
+Lemma sep_choice2 k (index : nat) (pre : list (K * tree)) s (c : tree) :
+  length pre = index -> (0 < index -> ltb k s = false) ->
+  Forall (fun x => ltb x s = false) (allkeys c) ->
+  let sep' := (if index =? 0 then if ltb k s then k else s else s) in
+  (pre = [] \/ sep' = s) /\ (sep' = s \/ sep' = k) /\ ltb k sep' = false /\
+  Forall (fun x => ltb x sep' = false) (allkeys c).
+Proof.
+  intros Hl Hi Hs sep'. subst sep'.
+  destruct (index =? 0) eqn:E.
+  - apply Nat.eqb_eq in E. subst index. destruct pre; [|discriminate].
+    destruct (ltb k s) eqn:Ek.
+    + repeat split; auto. apply irrefl.
+      eapply Forall_impl; [|exact Hs]. intros x Hx. cbn beta in Hx.
+      destruct (ltb x k) eqn:Exk; auto. rewrite (trans _ _ _ Exk Ek) in Hx. discriminate.
+    + repeat split; auto.
+  - apply Nat.eqb_neq in E. repeat split; auto. apply Hi. lia.
+Qed.
+
 (* ---------- what one level of the descent establishes ---------- *)
 Definition post_ok (order : nat) (k : K) (f : option V -> V) (d : nat) (n n' : tree) : Prop :=
   entries n' = put ltb k f (entries n) /\ ordered ltb n' /\ bal d n' /\ occ_kids order n' /\
@@ -215,12 +234,11 @@ Proof.
     assert (Hsc : Forall (fun x => ltb x s = false) (allkeys c)).
     { apply seps_ok_app_inv in Hso. destruct Hso as [_ Hso]. simpl in Hso. tauto. }
     destruct (smallest_ok K V c) as [sm Hsm]; [lia|].
-    destruct (sep_choice k (length pre) pre s c sm eq_refl Hidx Hsc Hoc Hsm) as (F1 & F1' & F2 & F3).
-    set (sep' := if length pre =? 0 then if ltb k sm then k else s else s) in *.
+    destruct (sep_choice2 k (length pre) pre s c eq_refl Hidx Hsc) as (F1 & F1' & F2 & F3).
+    set (sep' := if length pre =? 0 then if ltb k s then k else s else s) in *.
     assert (Hsepin : In sep' (s :: allkeys c) \/ sep' = k) by (destruct F1' as [-> | ->]; [left; now left|now right]).
     rewrite (node_lookup k pre s c post Hpre Hpost).
-    cbn [ins_loop]. rewrite Hsearch. cbn [bind]. rewrite get_nth_app. cbn [bind]. rewrite Hsm. cbn [bind].
-    rewrite if_ok. cbn [bind]. fold sep'.
+    cbn [ins_loop]. rewrite Hsearch. cbn [bind]. rewrite get_nth_app. cbn [bind]. fold sep'.
     destruct (maybe_split order c) as [[l r]|] eqn:Hm.
     + (* the child is full: split first *)
       destruct (split_facts K V ltb HS order d c l r H2 Hev Hc1 Hm Hoc Hbc Hc3)
@@ -315,7 +333,7 @@ Proof.
   remember (S (S (height t))) as fuel. cbn [ins_loop].
   assert (Hsearch : search_le ltb k (map fst [(ls, t)]) = Ok 0).
   { unfold search_le, search_ge. simpl. destruct (ltb k ls); reflexivity. }
-  rewrite Hsearch. cbn [bind]. unfold get_nth at 1. cbn [nth_error bind Nat.eqb]. rewrite Hst, Hm. cbn [bind].
+  rewrite Hsearch. cbn [bind]. unfold get_nth at 1. cbn [nth_error bind Nat.eqb]. rewrite Hm. cbn [bind].
   destruct (smallest r) as [rs|]; [|reflexivity]. cbn [bind].
   destruct (ltb k rs).
   - destruct (ins_loop ltb fuel order k f l) as [[l' a]|]; reflexivity.
